@@ -392,3 +392,51 @@ def c11_jobs(tier, seed):
     for tag, attrs in (('t', RT + ' unwrap-block'), ('m', PN + ' unwrap-block')):
         jobs.append(dict(harness='c11_unwrap', label=f'unwrap k=3 tag={tag} {attrs}', params=dict(k=3, tag=tag, attrs=attrs, holes=hole_sets[0])))
     return jobs
+
+
+# ---------------------------------------------------------------- C01 (pipeline): clean / list / list_all never panic
+C01_EXTRA = {
+    # tags sitting on the wrapper lines of an unwrap-block (the statement names this case)
+    'tag-on-wrapper-lines': ["A\n", O('m', RX + ' unwrap-block'), "\n", H(1, 'ind'), O('t', RT), H(1, 'txt'), "\nk", H(1, 'txt'), "\n", C('t'), H(1, 'ind'), "\n", C('m'), "\nB\n"],
+    'tag-on-head-wrapper': ["A\n", O('m', RX + ' unwrap-block'), "\n{", O('t', RT), "\nq\n", C('t'), H(2, 'ws'), "\nk\n}\n", C('m'), H(2, 'any')],
+    'tag-on-tail-wrapper': ["A\n", O('m', RX + ' unwrap-block'), "\n{\nk", H(2, 'ws'), O('t', RT), "\nq\n", C('t'), "}\n", C('m'), H(2, 'any')],
+    'inline-child-in-wrapper': ["A\n", O('t', RT + ' unwrap-block'), "\nif ", O('m', RX), "c", C('m'), " {\n", H(2, 'ws'), "k\n}\n", C('t'), H(2, 'ws')],
+    'multibyte-end': [H(2, 'any'), O('m', RX), "q", C('m'), H(4, 'any')],
+    'blank-tag': [H(1, 'any'), "<", H(2, 'ws'), ">", H(2, 'any'), O('m', RX), "q", C('m'), "<>", H(1, 'any')],
+    'unwrap-at-start': [O('m', RX + ' unwrap-block'), "\n", H(2, 'ws'), "{\nk\n}\n", H(1, 'ws'), C('m'), H(2, 'any')],
+    'unwrap-at-end': [H(2, 'any'), O('m', RX + ' unwrap-block'), "\n{\nk\n}\n", C('m')],
+    'unwrap-two-children': ["A\n", O('m', RX + ' unwrap-block'), "\n{\n", O('t', RT), "\n1\n", C('t'), "\n", H(2, 'ws'), O('t', RT), "\n2\n", C('t'), "\n}\n", C('m'), "\nB"],
+    'pending-unwrap-with-ready-wrapper-child': ["A\n", O('m', PN + ' unwrap-block'), "\n", O('t', RT), "\nq\n", C('t'), "\nk\n}\n", C('m'), H(2, 'ws')],
+}
+
+
+@harness('c01_pipe', covers=['ready-element', 'tag-on-wrapper-line'])
+def c01_pipe(ctx, p):
+    ds, de = list(p.get('ds', '<').encode()), list(p.get('de', '>').encode())
+    cfg = cfg_from(p)
+    src, parts = render(ctx, p['tpl'], ds, de)
+    if any(q['kind'] == 'open' for q in parts):
+        ctx.cover('ready-element')
+    if p.get('wrapper'):
+        ctx.cover('tag-on-wrapper-line')
+    no_panic(ctx, lambda: ctx.impl.clean(src, ds, de, cfg), 'clean')
+    for al in (False, True):
+        for fmt in ('json', 'pretty'):
+            no_panic(ctx, lambda: ctx.impl.list(src, ds, de, cfg, all=al, format=fmt), f"list{'_all' if al else ''}({fmt})")
+
+
+def c01_pipe_jobs(tier, seed):
+    rnd = random.Random(seed + 99)
+    jobs = []
+    budget = 4 if tier == 'quick' else 6
+    cfgs = [('base', {}), ('bad-offset', dict(tl_offset=list(b'+0:0'))), ('no-targets', dict(targets=[]))]
+    for name, tpl in list(C01_EXTRA.items()) + list(STRUCT.items()) + list(JUNK.items()):
+        extra = name in C01_EXTRA
+        vs = variants(tpl, budget, 3, rnd, (6 if extra else 2) if tier == 'quick' else (40 if extra else 12))
+        for sizes in vs:
+            if sum(sizes) < min(budget, 2) and len(vs) > 2:
+                continue
+            for cname, cfg in (cfgs if extra and tier != 'quick' else cfgs[:1]):
+                jobs.append(dict(harness='c01_pipe', label=f'{name} holes={sizes} cfg={cname}',
+                                 params=dict(tpl=instantiate(tpl, sizes), cfg=cfg, wrapper='wrapper' in name)))
+    return jobs
